@@ -42,6 +42,10 @@ CHECKS['C17'] = dict(tech='Hypothesis link configurations (ratio, bytes, gaps, c
              text='Serializer, clock generation/recovery and deserializer are looped back; the log of bytes accepted at the serializer port must equal the log delivered at the deserializer port, and a software 8N1 receiver sampling the recorded tx trace mid-bit must recover the same bytes; all 256 byte values are sent at several ratios. Exploration (sampled; bounded liveness).',
              note='Trusted: the software receiver and handshake logger in pbt/props/c17.py. Realised bit period 2*floor(r/2); consumer stalls shorter than half a frame.',
              ref='DESIGN.md 2/C17')
+CHECKS['C15'] = dict(tech='model-based Hypothesis recordings (Sequence sources, pokes, combinational functions, watch-list aliases, clk(n)/clear plans) against an independent value model and an independent WaveDrom decoder',
+             text='The value each watched wire carries into every edge is computed independently of Waveform; getDict() must equal it sample for sample, and get_wavedrom() (both name modes) is decoded by an independent reader (dots, bit characters, hexadecimal data labels) and must reproduce the same sequences and span exactly the recorded cycles including the clock lane. Exploration (sampled).',
+             note='Trusted: the value model and WaveDrom reader in pbt/props/c15.py.',
+             ref='DESIGN.md 2/C15')
 NOT_APPLICABLE = {}
 
 def main():
